@@ -8,5 +8,7 @@ CONSTANTS
   Routes = {"kwargs", "argv"}
   Layouts = {"flat"}
   Slim = TRUE
+  HistKinds = {}
+  MaxLookups = 0
 INVARIANT DropFalsyFollowsDocs
 CHECK_DEADLOCK FALSE
